@@ -78,7 +78,9 @@ pub fn run_child(dir: &Path, spec: &str, k: usize, fresh: bool, watch_all: bool)
         else if let Some((i, r)) = l.split_once(' ') { if let Ok(i) = i.parse() { acked.push((i, r.starts_with("ok"))); } }
     }
     let trace = std::fs::read_to_string(dir.join("trace.txt")).unwrap_or_default();
-    let nsys = trace.lines().filter(|l| !l.contains("resumed>") && !l.contains("+++") && !l.contains("---")).count();
+    // strace counts `when=K` per thread: enumerate the main thread's syscalls (the library does its file I/O there)
+    let main_pid = trace.lines().next().and_then(|l| l.split_whitespace().next()).unwrap_or("").to_string();
+    let nsys = trace.lines().filter(|l| l.split_whitespace().next() == Some(main_pid.as_str()) && !l.contains("resumed>") && !l.contains("+++") && !l.contains("---")).count();
     (KillRun { k, killed: !status.success(), acked, started, ended }, nsys)
 }
 
